@@ -588,6 +588,14 @@ func Go(f func()) {
 	Yield(SiteGo)
 }
 
+// Go1..Go4 replace `go f(a, ...)`: function value and arguments are evaluated by the caller.
+func Go1[A any](f func(A), a A)                       { Go(func() { f(a) }) }
+func Go2[A, B any](f func(A, B), a A, b B)            { Go(func() { f(a, b) }) }
+func Go3[A, B, C any](f func(A, B, C), a A, b B, c C) { Go(func() { f(a, b, c) }) }
+func Go4[A, B, C, D any](f func(A, B, C, D), a A, b B, c C, d D) {
+	Go(func() { f(a, b, c, d) })
+}
+
 // Run executes the bodies as tasks under the configured schedule and returns
 // when all have finished, or when the run hung or deadlocked.
 func Run(cfg Config, bodies []func(*Task)) Result {
